@@ -2,7 +2,7 @@ From Coq Require Import List ZArith Bool Lia.
 From Coq.Strings Require Import Byte.
 Import ListNotations.
 From Zap Require Import Base.Wire Enc.Bytes Enc.Fields Enc.JsonEnc Enc.JsonParse Enc.WireEnc Enc.JsonAst Enc.Wf
-  Enc.Refine4 Enc.Parse3 Enc.Parse4 C02.Model C10.Model.
+  Enc.Refine4 Enc.Parse3 Enc.Parse4 Enc.Console Enc.ConsoleProof C02.Model C10.Model.
 
 (* ================= field failures: locality on the tree semantics ================= *)
 Section F.
@@ -47,79 +47,80 @@ End F.
 (* ================= sinks and cores ================= *)
 Section ScoreInd.
   Variable P : score -> Prop.
-  Hypotheses (HL : forall id outs, P (SLeaf id outs)) (HT : forall l, Forall P l -> P (STee l)) (HW : forall c, P c -> P (SWrap c)).
+  Hypotheses (HL : forall id con outs, P (SLeaf id con outs)) (HT : forall l, Forall P l -> P (STee l)) (HW : forall c, P c -> P (SWrap c)).
   Fixpoint score_ind' (c : score) : P c :=
     match c with
-    | SLeaf id outs => HL id outs
+    | SLeaf id con outs => HL id con outs
     | STee l => HT l ((fix go (l : list score) : Forall P l :=
                          match l with [] => Forall_nil _ | x :: r => Forall_cons _ (score_ind' x) (go r) end) l)
     | SWrap c => HW c (score_ind' c)
     end.
 End ScoreInd.
 
-Definition leaf_events (hi : bool) (k : nat) (lf : Z * list outcome1) : list ev :=
-  match werr (out_at (snd lf) k) with
-  | Some _ => [EvW (fst lf)]
-  | None => EvW (fst lf) :: (if hi then [EvS (fst lf)] else [])
+Definition leaf_events (line : bool -> bytes) (hi : bool) (k : nat) (l : lf) : list ev :=
+  match werr (out_at (l_outs l) k) with
+  | Some _ => [EvW (l_id l) (line (l_con l))]
+  | None => EvW (l_id l) (line (l_con l)) :: (if hi then [EvS (l_id l)] else [])
   end.
-Definition leaf_errs (k : nat) (lf : Z * list outcome1) : list bytes :=
-  match werr (out_at (snd lf) k) with Some m => [m] | None => [] end.
+Definition leaf_errs (k : nat) (l : lf) : list bytes :=
+  match werr (out_at (l_outs l) k) with Some m => [m] | None => [] end.
 
-Definition tee_write (hi : bool) (k : nat) := fix go (l : list score) : list ev * list bytes :=
+Definition tee_write (line : bool -> bytes) (hi : bool) (k : nat) := fix go (l : list score) : list ev * list bytes :=
   match l with
   | [] => ([], [])
-  | x :: r => let '(e1, m1) := core_write hi k x in let '(e2, m2) := go r in (e1 ++ e2, m1 ++ m2)
+  | x :: r => let '(e1, m1) := core_write line hi k x in let '(e2, m2) := go r in (e1 ++ e2, m1 ++ m2)
   end.
 Definition tee_leaves := fix go (l : list score) := match l with [] => [] | x :: r => leaves x ++ go r end.
 Definition tee_accepted := fix go (l : list score) : list score := match l with [] => [] | x :: r => accepted x ++ go r end.
 
-(* Core.Write reaches every sink under the core exactly once, in order, whatever failed before *)
-Lemma core_write_spec hi k : forall c,
-  core_write hi k c = (flat_map (leaf_events hi k) (leaves c), flat_map (leaf_errs k) (leaves c)).
+(* Core.Write reaches every sink under the core exactly once, in order, whatever failed before,
+   and hands it the line of that core's own encoder *)
+Lemma core_write_spec line hi k : forall c,
+  core_write line hi k c = (flat_map (leaf_events line hi k) (leaves c), flat_map (leaf_errs k) (leaves c)).
 Proof.
   apply score_ind'.
-  - intros id outs. cbn [core_write leaves flat_map]. unfold leaf_events, leaf_errs. cbn [fst snd].
+  - intros id con outs. cbn [core_write leaves flat_map]. unfold leaf_events, leaf_errs. cbn [l_id l_con l_outs].
     destruct (werr (out_at outs k)); now rewrite !app_nil_r.
-  - intros l Hl. change (core_write hi k (STee l)) with (tee_write hi k l). change (leaves (STee l)) with (tee_leaves l).
+  - intros l Hl. change (core_write line hi k (STee l)) with (tee_write line hi k l). change (leaves (STee l)) with (tee_leaves l).
     induction Hl as [|x r Hx _ IH]; [reflexivity|]. cbn [tee_write tee_leaves]. rewrite Hx, IH, !flat_map_app. reflexivity.
   - intros c IH. exact IH.
 Qed.
 
-Lemma fold_entry hi k l : forall acc,
-  fold_left (fun acc x => let '(e, m) := core_write hi k x in (fst acc ++ e, snd acc ++ m)) l acc =
-  (fst acc ++ flat_map (fun x => fst (core_write hi k x)) l, snd acc ++ flat_map (fun x => snd (core_write hi k x)) l).
+Lemma fold_entry line hi k l : forall acc,
+  fold_left (fun acc x => let '(e, m) := core_write line hi k x in (fst acc ++ e, snd acc ++ m)) l acc =
+  (fst acc ++ flat_map (fun x => fst (core_write line hi k x)) l, snd acc ++ flat_map (fun x => snd (core_write line hi k x)) l).
 Proof.
   induction l as [|x r IH]; intros [a b]; cbn [fold_left flat_map fst snd]; [now rewrite !app_nil_r|].
-  destruct (core_write hi k x) as [e m] eqn:E. rewrite IH. cbn [fst snd]. now rewrite <- !app_assoc.
+  destruct (core_write line hi k x) as [e m] eqn:E. rewrite IH. cbn [fst snd]. now rewrite <- !app_assoc.
 Qed.
-Lemma accepted_leaves hi k : forall c,
-  flat_map (fun x => fst (core_write hi k x)) (accepted c) = flat_map (leaf_events hi k) (leaves c) /\
-  flat_map (fun x => snd (core_write hi k x)) (accepted c) = flat_map (leaf_errs k) (leaves c).
+Lemma accepted_leaves line hi k : forall c,
+  flat_map (fun x => fst (core_write line hi k x)) (accepted c) = flat_map (leaf_events line hi k) (leaves c) /\
+  flat_map (fun x => snd (core_write line hi k x)) (accepted c) = flat_map (leaf_errs k) (leaves c).
 Proof.
   apply score_ind'.
-  - intros id outs. cbn [accepted flat_map]. rewrite (core_write_spec hi k (SLeaf id outs)). cbn [fst snd]. now rewrite !app_nil_r.
+  - intros id con outs. cbn [accepted flat_map]. rewrite (core_write_spec line hi k (SLeaf id con outs)). cbn [fst snd]. now rewrite !app_nil_r.
   - intros l Hl. change (accepted (STee l)) with (tee_accepted l). change (leaves (STee l)) with (tee_leaves l).
     induction Hl as [|x r [H1 H2] _ [I1 I2]]; [split; reflexivity|]. cbn [tee_accepted tee_leaves].
     rewrite !flat_map_app, H1, H2, I1, I2. split; reflexivity.
-  - intros c _. cbn [accepted flat_map]. rewrite (core_write_spec hi k (SWrap c)). cbn [fst snd leaves]. now rewrite !app_nil_r.
+  - intros c _. cbn [accepted flat_map]. rewrite (core_write_spec line hi k (SWrap c)). cbn [fst snd leaves]. now rewrite !app_nil_r.
 Qed.
 
 (* CheckedEntry.Write: every sink of every accepting core is written exactly once, in order,
-   regardless of earlier failures; all write errors are collected, in order *)
-Theorem sink_events hi k c : fst (entry_write hi k c) = spec_events hi k c.
-Proof. unfold entry_write. rewrite fold_entry. cbn [fst app]. exact (proj1 (accepted_leaves hi k c)). Qed.
-Theorem sink_errs hi k c : snd (entry_write hi k c) = spec_write_errs k c.
-Proof. unfold entry_write. rewrite fold_entry. cbn [snd app]. exact (proj2 (accepted_leaves hi k c)). Qed.
+   regardless of earlier failures, with the line of its own encoder; all write errors are collected, in order *)
+Theorem sink_events line hi k c : fst (entry_write line hi k c) = spec_events line hi k c.
+Proof. unfold entry_write. rewrite fold_entry. cbn [fst app]. exact (proj1 (accepted_leaves line hi k c)). Qed.
+Theorem sink_errs line hi k c : snd (entry_write line hi k c) = spec_write_errs k c.
+Proof. unfold entry_write. rewrite fold_entry. cbn [snd app]. exact (proj2 (accepted_leaves line hi k c)). Qed.
 
 (* the full statement also asks for Sync failures to be reported; ioCore.Write drops them *)
-Definition sink_full : Prop := forall hi k c, snd (entry_write hi k c) = spec_write_errs k c ++ spec_sync_errs hi k c.
+Definition sink_full : Prop := forall line hi k c, snd (entry_write line hi k c) = spec_write_errs k c ++ spec_sync_errs hi k c.
 Lemma sink_full_refuted : ~ sink_full.
 Proof.
-  intros H. specialize (H true 0 (SLeaf 0 [{| werr := None; serr := Some [x53] |}])). vm_compute in H. discriminate.
+  intros H. specialize (H no_line true 0%nat (SLeaf 0 false [{| werr := None; serr := Some [x53] |}])). vm_compute in H. discriminate.
 Qed.
 Fixpoint no_sync_fault (c : score) {struct c} : bool :=
   match c with
-  | SLeaf _ outs => forallb (fun o => match serr o with Some _ => false | None => true end) outs
+  | SLeaf _ _ outs => forallb (fun o => match serr o with Some _ => false | None => true end) outs
   | STee l => (fix go (l : list score) := match l with [] => true | x :: r => no_sync_fault x && go r end) l
   | SWrap c => no_sync_fault c
   end.
@@ -133,43 +134,135 @@ Lemma no_sync_errs hi k : forall c, no_sync_fault c = true -> spec_sync_errs hi 
 Proof.
   intros c H. unfold spec_sync_errs. destruct hi; [|reflexivity].
   revert c H. apply (score_ind' (fun c => no_sync_fault c = true ->
-    flat_map (fun lf => match werr (out_at (snd lf) k), serr (out_at (snd lf) k) with None, Some m => [m] | _, _ => [] end) (leaves c) = [])).
-  - intros id outs H. cbn [leaves flat_map snd]. rewrite (out_at_serr outs k H). destruct (werr _); reflexivity.
+    flat_map (fun l => match werr (out_at (l_outs l) k), serr (out_at (l_outs l) k) with None, Some m => [m] | _, _ => [] end) (leaves c) = [])).
+  - intros id con outs H. cbn [leaves flat_map l_outs]. rewrite (out_at_serr outs k H). destruct (werr _); reflexivity.
   - intros l Hl H. change (leaves (STee l)) with (tee_leaves l).
     induction Hl as [|x r Hx _ IH]; [reflexivity|]. cbn [no_sync_fault] in H. apply andb_true_iff in H as [H1 H2].
     cbn [tee_leaves]. rewrite flat_map_app, (Hx H1), (IH H2). reflexivity.
   - intros c IH H. exact (IH H).
 Qed.
-Theorem sink_reported_partial hi k c : no_sync_fault c = true ->
-  snd (entry_write hi k c) = spec_write_errs k c ++ spec_sync_errs hi k c.
+Theorem sink_reported_partial line hi k c : no_sync_fault c = true ->
+  snd (entry_write line hi k c) = spec_write_errs k c ++ spec_sync_errs hi k c.
 Proof. intros H. rewrite sink_errs, (no_sync_errs hi k c H). now rewrite app_nil_r. Qed.
 
-(* ================= wire level ================= *)
+(* ================= what the sinks receive ================= *)
 From Zap Require C17.Proofs C02.Proofs.
+Section Line.
+Variables (c : cfg) (ctxs : list (list fld)) (ent : entry) (fs : list fld).
+Hypotheses (Qg : q_nil_caller_guard c = true) (Ql : q_layout_escaped c = true)
+  (Wc : forallb wf_flds ctxs = true) (Wf' : wf_flds fs = true) (We : wf_entry ent = true).
+
+(* the line a JSON ioCore hands to its sink decodes to exactly the reference members of the entry *)
+Lemma line_json : line_obj (resolved_le c) (entry_line c ctxs ent fs false) = Some (jv_mem (entry_members c ctxs ent fs)).
+Proof.
+  unfold entry_line. destruct (entry_valid_wf c ctxs ent fs Qg Ql Wc Wf' We) as (out & E & L). rewrite E. exact L.
+Qed.
+(* the line a console ioCore hands to its sink is exactly the documented shape *)
+Lemma line_console : entry_line c ctxs ent fs true = console_spec c ctxs ent fs.
+Proof. unfold entry_line. exact (console_shape c ctxs ent fs Wc Wf'). Qed.
+Lemma line_ok con : payload_ok c ctxs ent fs con (entry_line c ctxs ent fs con) = true.
+Proof.
+  unfold payload_ok. destruct con.
+  - rewrite line_console, (proj2 (bytes_eqb_eq _ _) eq_refl). cbn [andb].
+    pose proof (tpre_close _ (ev_flds_pre c Ql fs (wf_owf_flds _ Wf') _ (with_chain_pre c Ql ctxs (wf_owf_ctxs _ Wc)))) as Hp.
+    destruct (close (ev_flds c fs (ev_with_chain c ctxs))) as [|m r] eqn:E; [reflexivity|].
+    destruct (context_same _ Hp) as [H1 H2]. rewrite H1, H2. reflexivity.
+  - rewrite line_json. apply C02.Proofs.jv_eqb_refl.
+Qed.
+End Line.
+
+Lemma firstn_wf ctxs d : forallb wf_flds ctxs = true -> forallb wf_flds (firstn d ctxs) = true.
+Proof.
+  revert d. induction ctxs as [|x r IH]; intros [|d] H; try reflexivity. cbn [forallb] in H. apply andb_true_iff in H as [H1 H2].
+  cbn [firstn forallb]. now rewrite H1, IH.
+Qed.
+
+(* sequences: the k-th entry of any sequence reaches every sink of the tree, in order, as that entry's
+   own line, and exactly its write failures are collected - whatever happened to the entries before it *)
+Lemma mapi_nth {A B} (f : nat -> A -> B) : forall l k0 k e, nth_error l k = Some e ->
+  nth_error (mapi_from f k0 l) k = Some (f (k0 + k)%nat e).
+Proof.
+  induction l as [|x r IH]; intros k0 [|k] e H; try discriminate.
+  - cbn in H. injection H as ->. cbn. now rewrite Nat.add_0_r.
+  - cbn [nth_error mapi_from] in *. rewrite (IH (S k0) k e H). f_equal. f_equal. lia.
+Qed.
+Theorem seq_entry c ctxs t es k e : nth_error es k = Some e ->
+  nth_error (run_seq c ctxs t es) k = Some (spec_events (pent_line c ctxs e) (p_hi e) k t, spec_write_errs k t).
+Proof.
+  intros H. unfold run_seq. rewrite (mapi_nth _ es 0 k e H). cbn [Nat.add]. f_equal.
+  rewrite <- sink_events, <- (sink_errs (pent_line c ctxs e) (p_hi e) k t). now destruct (entry_write _ _ _ _).
+Qed.
+(* and each of those lines is the entry, intact *)
+Theorem seq_entry_intact c ctxs e con : q_nil_caller_guard c = true -> q_layout_escaped c = true ->
+  forallb wf_flds ctxs = true -> wf_pent e = true ->
+  payload_ok c (firstn (p_d e) ctxs) (p_ent e) (p_fs e) con (pent_line c ctxs e con) = true.
+Proof.
+  intros Qg Ql Wc We. unfold wf_pent in We. apply andb_true_iff in We as [W1 W2].
+  unfold pent_line. apply line_ok; try assumption. now apply firstn_wf.
+Qed.
+
+(* ================= wire level ================= *)
 Definition case_ok (i : sx) : Prop :=
   match sx_z (sx_nth i 0) with
   | 0%Z => C02.Model.wf (sx_nth i 1) = true
-  | _ => no_sync_fault (dec_score (sx_size (sx_nth i 2)) (sx_nth i 2)) = true
+  | 1%Z => no_sync_fault (dec_score (sx_size (sx_nth i 2)) (sx_nth i 2)) = true
+  | _ => C10.Model.wf i = true /\ no_sync_fault (seq_tree i) = true
   end.
+
+Lemma sink_wire i : no_sync_fault (dec_score (sx_size (sx_nth i 2)) (sx_nth i 2)) = true -> spec_sink i (model_sink i) = true.
+Proof.
+  intros H. unfold spec_sink, model_sink. cbn [sx_nth sx_l nth]. rewrite C17.Proofs.sx_eqb_refl. cbn [andb].
+  set (c := dec_score _ _) in *. set (hi := sx_bool _). set (n := sx_n _).
+  assert (G : forall l, map (fun r : list ev * list bytes => SL [SL (map enc_ev (fst r)); SL (map SB (snd r)); SZ (if is_nil (snd r) then 0 else 1)]) (map (fun k => entry_write no_line hi k c) l) =
+                        map (fun k => let errs := spec_write_errs k c ++ spec_sync_errs hi k c in
+                                      SL [SL (map enc_ev (spec_events no_line hi k c)); SL (map SB errs); SZ (if is_nil errs then 0 else 1)]) l).
+  { induction l as [|k r IH]; [reflexivity|]. cbn [map]. rewrite IH. f_equal.
+    rewrite sink_events, (sink_reported_partial no_line hi k c H). reflexivity. }
+  unfold run_sink. rewrite G. apply C17.Proofs.sx_eqb_refl.
+Qed.
+
+(* the matcher accepts the events the specification lists when every line is acceptable *)
+Lemma match_events_spec ok line hi k : (forall con, ok con (line con) = true) -> forall ls,
+  match_events ok hi k ls (map enc_evp (flat_map (leaf_events line hi k) ls)) = true.
+Proof.
+  intros Hok. induction ls as [|l r IH]; [reflexivity|].
+  cbn [flat_map]. unfold leaf_events at 1. cbn [match_events].
+  destruct (werr (out_at (l_outs l) k)) as [m|] eqn:E.
+  - cbn [app map enc_evp sx_nth sx_l nth sx_z]. rewrite !Z.eqb_refl, Hok. cbn [andb]. exact IH.
+  - destruct hi; cbn [app map enc_evp sx_nth sx_l nth sx_z]; rewrite !Z.eqb_refl, Hok; cbn [andb].
+    + rewrite C17.Proofs.sx_eqb_refl. exact IH.
+    + exact IH.
+Qed.
+Lemma seq_rows c ctxs t : q_nil_caller_guard c = true -> q_layout_escaped c = true -> forallb wf_flds ctxs = true ->
+  no_sync_fault t = true -> forall es k, forallb wf_pent es = true ->
+  match_rows c ctxs t k es (map enc_row (mapi_from (fun k e => entry_write (pent_line c ctxs e) (p_hi e) k t) k es)) = true.
+Proof.
+  intros Qg Ql Wc Hs. induction es as [|e r IH]; intros k We; [reflexivity|].
+  cbn [forallb] in We. apply andb_true_iff in We as [W1 W2].
+  cbn [mapi_from map match_rows]. rewrite (IH (S k) W2), andb_true_r.
+  unfold enc_row. cbn [sx_nth sx_l nth].
+  rewrite sink_events, (sink_reported_partial _ (p_hi e) k t Hs), !C17.Proofs.sx_eqb_refl, !andb_true_r.
+  apply (match_events_spec _ (pent_line c ctxs e)). intros con. now apply seq_entry_intact.
+Qed.
+Lemma seq_wire i : C10.Model.wf i = true -> sx_z (sx_nth i 0) <> 0%Z -> sx_z (sx_nth i 0) <> 1%Z ->
+  no_sync_fault (seq_tree i) = true -> spec_seq i (model_seq i) = true.
+Proof.
+  intros Hw N0 N1 Hs. unfold C10.Model.wf in Hw.
+  destruct (sx_z (sx_nth i 0)) as [|p|p] eqn:E; [congruence| |].
+  - destruct p; try congruence; apply andb_true_iff in Hw as [Wc We];
+      unfold spec_seq, model_seq; cbn [sx_nth sx_l nth]; rewrite C17.Proofs.sx_eqb_refl; cbn [andb];
+      now apply seq_rows.
+  - apply andb_true_iff in Hw as [Wc We].
+    unfold spec_seq, model_seq; cbn [sx_nth sx_l nth]; rewrite C17.Proofs.sx_eqb_refl; cbn [andb].
+    now apply seq_rows.
+Qed.
+
 Theorem wire_thm i : case_ok i -> spec i (model i) = true.
 Proof.
-  unfold case_ok, spec, model. destruct (sx_z (sx_nth i 0)) eqn:E.
+  unfold case_ok, spec, model. destruct (sx_z (sx_nth i 0)) as [|p|p] eqn:E.
   - intros Hw. pose proof (C02.Proofs.wire_line (sx_nth i 1) Hw) as H.
     unfold C02.Model.model in *. destruct (encode_entry _ _ _ _ _); [|discriminate H]. exact H.
-  - intros H. unfold spec_sink, model_sink. cbn [sx_nth sx_l nth]. rewrite C17.Proofs.sx_eqb_refl. cbn [andb].
-    set (c := dec_score _ _) in *. set (hi := sx_bool _). set (n := sx_n _).
-    assert (G : forall l, map (fun r : list ev * list bytes => SL [SL (map enc_ev (fst r)); SL (map SB (snd r)); SZ (if is_nil (snd r) then 0 else 1)]) (map (fun k => entry_write hi k c) l) =
-                          map (fun k => let errs := spec_write_errs k c ++ spec_sync_errs hi k c in
-                                        SL [SL (map enc_ev (spec_events hi k c)); SL (map SB errs); SZ (if is_nil errs then 0 else 1)]) l).
-    { induction l as [|k r IH]; [reflexivity|]. cbn [map]. rewrite IH. f_equal.
-      rewrite sink_events, (sink_reported_partial hi k c H). reflexivity. }
-    unfold run_sink. rewrite G. apply C17.Proofs.sx_eqb_refl.
-  - intros H. unfold spec_sink, model_sink. cbn [sx_nth sx_l nth]. rewrite C17.Proofs.sx_eqb_refl. cbn [andb].
-    set (c := dec_score _ _) in *. set (hi := sx_bool _). set (n := sx_n _).
-    assert (G : forall l, map (fun r : list ev * list bytes => SL [SL (map enc_ev (fst r)); SL (map SB (snd r)); SZ (if is_nil (snd r) then 0 else 1)]) (map (fun k => entry_write hi k c) l) =
-                          map (fun k => let errs := spec_write_errs k c ++ spec_sync_errs hi k c in
-                                        SL [SL (map enc_ev (spec_events hi k c)); SL (map SB errs); SZ (if is_nil errs then 0 else 1)]) l).
-    { induction l as [|k r IH]; [reflexivity|]. cbn [map]. rewrite IH. f_equal.
-      rewrite sink_events, (sink_reported_partial hi k c H). reflexivity. }
-    unfold run_sink. rewrite G. apply C17.Proofs.sx_eqb_refl.
+  - destruct p; try (intros [Hw Hs]; apply seq_wire; [exact Hw|rewrite E; discriminate|rewrite E; discriminate|exact Hs]).
+    apply sink_wire.
+  - intros [Hw Hs]; apply seq_wire; [exact Hw|rewrite E; discriminate|rewrite E; discriminate|exact Hs].
 Qed.
